@@ -3,7 +3,7 @@ From Coq Require Import ZArith List Bool Lia String.
 From Coq.Strings Require Import Byte.
 From Verif Require Import Lib.Bytes Gen.GenNetworks Gen.GenConsts Model.Wire Model.AddrScript.
 From Verif Require Import Proofs.AddrScriptSpec Proofs.AddrScriptTac Proofs.AddrScriptStr Proofs.AddrScriptInv
-     Proofs.AddrScriptObj Proofs.AddrScriptParse Proofs.AddrScriptHd.
+     Proofs.AddrScriptObj Proofs.AddrScriptParse Proofs.AddrScriptHd Proofs.AddrScriptHints.
 Import ListNotations.
 Open Scope Z_scope.
 
@@ -178,6 +178,28 @@ Proof.
   - apply pfx_guard; [exact Hn|exact (tb_leaves_kind fx _ Hg)].
 Qed.
 
+(* Output(address=<string>, public_key=pub): with fixes/C05-4 the address decides and is checked *)
+Lemma lock_is_spec_addr_pubkey_g fx net d pub :
+  In net all_networks -> standard d = true ->
+  (fx_witver fx = true \/ cls_witver_str d = false) ->
+  fx_addrpk fx = true -> tb_leaves fx [pub] ->
+  out_is (lib_out_addr_pubkey H160 fx net (spec_address net d) pub)
+         (spec_lock_script d) (stype_name (d_stype d)) (nw_name net) OaGiven.
+Proof.
+  intros Hn Hs Hg Ha Hl. apply lock_is_spec_addr_pubkey; try assumption.
+  apply tb_of. apply (tb_leaves_in fx _ _ Hl). left; reflexivity.
+Qed.
+
+Lemma foreign_refused_addr_pubkey_g fx A B d pub :
+  In A all_networks -> In B all_networks ->
+  addr_on_network B (spec_address A d) = false ->
+  fx_addrpk fx = true -> tb_leaves fx [pub] ->
+  lib_out_addr_pubkey H160 fx B (spec_address A d) pub = RErr.
+Proof.
+  intros HA HB Hf Ha Hl. apply foreign_refused_addr_pubkey; try assumption.
+  apply tb_of. apply (tb_leaves_in fx _ _ Hl). left; reflexivity.
+Qed.
+
 Lemma foreign_object_refused fx o A B d :
   fx_netobj fx = true ->
   In A all_networks -> In B all_networks ->
@@ -196,4 +218,5 @@ End WithH.
 (* sample values used by the Examples of Properties/C05.v *)
 Definition ex20 : bytes := repeat x07 20.
 Definition ex32 : bytes := repeat x07 32.
-Definition no_hash : bytes -> bytes := fun _ => repeat x09 20.
+(* a stand-in for hash160 in the Examples (no byte of it is a hexadecimal digit or white space) *)
+Definition no_hash : bytes -> bytes := fun _ => repeat x99 20.
